@@ -11,7 +11,7 @@ import (
 	"pgregory.net/rapid"
 )
 
-var regKeys = []string{"", "a", "b", "a", "b", "c"} // "" = nil key (no x-verif-key metadata)
+var regKeys = []string{"", "a", "b", "a", "b", "c", "7", "#7"} // "" = nil key (no x-verif-key metadata); "7" is a string, "#7" the int 7
 
 func genC12(t *rapid.T) *Case {
 	c := &Case{Prop: "c12"}
@@ -29,7 +29,7 @@ func genC12(t *rapid.T) *Case {
 			if rapid.IntRange(0, 2).Draw(t, fmt.Sprintf("op%d.via", i)) == 0 {
 				return "all"
 			}
-			key := rapid.SampledFrom([]string{"a", "b", "c", "<nil>"}).Draw(t, fmt.Sprintf("op%d.key", i))
+			key := rapid.SampledFrom([]string{"a", "b", "c", "<nil>", "7", "#7"}).Draw(t, fmt.Sprintf("op%d.key", i))
 			return "key:" + key
 		}
 		switch k {
@@ -182,7 +182,7 @@ func (w *World) runRegistry() {
 		if k == "<nil>" {
 			return w.handler.KeyAsChannel(nil)
 		}
-		return w.handler.KeyAsChannel(k)
+		return w.handler.KeyAsChannel(keyVal(k))
 	}
 	releaseParked := func() {
 		w.mu.Lock()
